@@ -32,10 +32,17 @@ def checks_for(diff):
     return sorted(out), sorted(files)
 
 
+MAIN = {"adwin": ["C03"], "cusum": ["C04"], "page_hinkley": ["C04", "C11"], "ddm": ["C05"], "eddm": ["C05"], "stepd": ["C05"], "lfr": ["C06"],
+        "histogram_density": ["C07", "C18"], "hdddm": ["C07"], "cdbd": ["C07"], "KDQTreePartitioner": ["C08", "C09"], "kdq_tree": ["C09"],
+        "NNSpacePartitioner": ["C10", "C18"], "nndvi": ["C10"], "pca_cd": ["C11"], "ensemble": ["C12"], "election": ["C13", "C12"],
+        "md3": ["C19", "C15"], "detector.py": ["C14", "C15"], "injection": ["C15"]}
+
+
 def main():
     ap = argparse.ArgumentParser()
     ap.add_argument("--root", default="/tmp/mut7")
     ap.add_argument("--filed", action="store_true")
+    ap.add_argument("--main-only", action="store_true", help="only the checks of the properties whose statement is about the touched code")
     ap.add_argument("--seed", default="0")
     ap.add_argument("names", nargs="+")
     a = ap.parse_args()
@@ -48,6 +55,13 @@ def main():
     bad = 0
     for label, d in diffs:
         checks, files = checks_for(d)
+        if a.main_only:
+            main = set()
+            for f_ in files:
+                for key, props in MAIN.items():
+                    if key in f_:
+                        main.update(props)
+            checks = sorted(main & set(checks) | (main if not set(checks) else set())) or checks
         cp = subprocess.run([sys.executable, os.path.join(HERE, "tools", "trymut.py"), "--diff", d, "--seed", a.seed] + checks, capture_output=True, text=True, cwd=HERE)
         lines = [l for l in cp.stdout.splitlines() if re.match(r"^C\d\d: ", l)]
         alarms = [l for l in lines if "violation=yes" in l or "exit=2" in l or "exit=1" in l]
